@@ -134,7 +134,11 @@ func (c *BindingManager) RemoveBinding(data model.BindingManagementDeleteCallTyp
 	for _, item := range c.bindingEntries {
 		itemAddress := item.ClientFeature.Address()
 
-		if !reflect.DeepEqual(*itemAddress, clientAddress) ||
+		// the stored address has no device part as long as the address of the remote device is unknown
+		if item.ClientFeature.Device().Ski() != remoteDevice.Ski() ||
+			(itemAddress.Device != nil && !reflect.DeepEqual(itemAddress.Device, clientAddress.Device)) ||
+			!reflect.DeepEqual(itemAddress.Entity, clientAddress.Entity) ||
+			!reflect.DeepEqual(itemAddress.Feature, clientAddress.Feature) ||
 			!reflect.DeepEqual(item.ServerFeature, serverFeature) {
 			newBindingEntries = append(newBindingEntries, item)
 		}
